@@ -11,6 +11,9 @@ def t3(rep, tier, seed):
     ms = list(H.multisets(N, V))
     rnd = [[rng.randint(0, 100) for _ in range(rng.randint(5, 10))] for _ in range(60 if tier == "quick" else 1500)]
     dom = [{"values": v, "d": d} for v in ms + rnd for d in (None, 1, 2, 3, len(v))]
+    from props._domains import repeated_value_lists, large_value_variants
+    dom += [{"values": v, "d": d} for v in repeated_value_lists(tier) for d in (1, 2)]          # long runs of equal values, 7-8 items
+    dom += [{"values": v, "d": d} for v in large_value_variants(ms[::7]) for d in (None, 1)]    # sums ~1e7 differing by a few units
     rep.add(H.run_case("C12/T3/cbldm/balanced-optimal", "prtpy/partitioning/cbldm.py::cbldm", T.c12_case, dom,
                        f"all multisets n<={N} of 0..{V} + seeded random n<=10; bounds {{default,1,2,3,n}}; oracle = all 2^n subsets obeying the bound"))
 
